@@ -396,8 +396,8 @@ def rand_step(rng, n, invalid_p=0.12, pandas_forms=True):
             if ln == 0:
                 forms = ['numpy', 'boolarray']   # pd.array([]) of a list is not boolean
         form = rng.choice(forms)
-        if form in ('ell_first', 'ell_last'):
-            pass
+        if form == 'list' and all(b is None for b in m):
+            form = 'boolarray'          # pd.array([None]) is not inferred as boolean
         return {'op': 'mask', 'args': m, 'form': form}
     if op == 'ints':
         cnt = rng.choice([0, 1, 2, 3, n, n + 2])
@@ -423,6 +423,8 @@ def rand_step(rng, n, invalid_p=0.12, pandas_forms=True):
             if cnt == 2 and 'tuple' in forms and False:
                 pass
         form = rng.choice(forms)
+        if form == 'list' and cnt and all(i is None for i in ix):
+            form = 'Int64'              # pd.array([None]) is not inferred as integer
         if form == 'tuple' and cnt == 2:
             form = 'list'          # a 2-tuple is never an Ellipsis form here, but keep it plain
         if form == 'tuple' and cnt == 0:
@@ -462,7 +464,9 @@ def rand_step(rng, n, invalid_p=0.12, pandas_forms=True):
                     forms.append('series_reindex')
                 forms.append('pd_take')
             else:
-                forms += ['series_take', 'pd_take']
+                # (pandas.api.extensions.take without allow_fill passes axis=0, which the
+                # ExtensionArray.take signature does not have)
+                forms += ['series_take']
         return {'op': 'take', 'args': [ix, allow_fill, fv], 'form': rng.choice(forms)}
     if op == 'concat':
         r = rng.random()
